@@ -8,3 +8,12 @@ void
 psf_log_printf (SF_PRIVATE *psf, const char *format, ...)
 {	(void) psf ; (void) format ;
 }
+
+#if defined (STUB_APPEND_SNPRINTF) && (defined (VERIF_CBMC) || defined (__CPROVER__))
+/* append_snprintf (src/common.c) only builds log text; the model appends nothing (dest stays a terminated
+ * string). Linked units must have the real body removed (stubs=["append_snprintf"]). Native replay uses the real one. */
+void
+append_snprintf (char *dest, size_t maxlen, const char *fmt, ...)
+{	(void) dest ; (void) maxlen ; (void) fmt ;
+}
+#endif
